@@ -550,7 +550,9 @@ class World:
 
     def kwargs_value(self, eng, st, kwargs):
         if not kwargs:
-            raise EngineError('empty **kwargs needs a declared sort')
+            # no extra keywords: an empty dict of dynamic values
+            st_ = st
+            return st_.alloc(Dict('str', 'val', z3.K(Str, z3.BoolVal(False)), fresh('nokw', z3.ArraySort(Str, self.Val))))
         keys = [VStr(k) for k in kwargs]
         return eng.dict_literal(st, keys, list(kwargs.values()))
 
@@ -738,6 +740,15 @@ class World:
                 kind = 'bool' if dn == 'bool' else ('int' if dn.startswith(('int', 'uint')) else 'real')
             eng.oblige(st, 'nonneg-size', n >= 0, line)
             return [Result(st, st.alloc(Arr(kind, fresh('empty', z3.ArraySort(I, eng.sort_of_kind(kind))), n, 'ndarray')))]
+        if name in ('all', 'any') and len(args) == 1 and args[0].kind == 'ref' and isinstance(st.node(args[0]), Arr):
+            n = st.node(args[0])
+            q = fresh('q', I)
+            if n.elem != 'bool':
+                raise EngineError('%s:%d: %s() over a list of %s' % (eng.rel, line, name, n.elem))
+            rng = z3.And(0 <= q, q < n.n)
+            if name == 'all':
+                return [Result(st, VBool(z3.ForAll([q], z3.Implies(rng, n.a[q]), patterns=[n.a[q]])))]
+            return [Result(st, VBool(z3.Exists([q], z3.And(rng, n.a[q]), patterns=[n.a[q]])))]
         if name == 'enumerate' and len(args) == 1:
             return [Result(st, VEnumerate(args[0]))]
         if name in ('max', 'min') and len(args) == 2 and all(a.kind in ('int', 'bool') for a in args):
@@ -1025,7 +1036,7 @@ class World:
             rec = Fn.recognizer(ci)
             s = st.copy()
             s.assume(rec(term))
-            if not eng.feasible(s):
+            if not eng.feasible(s, full=True):     # which functions a value can be is known from quantified facts
                 continue
             cname = ctor.name()
             if cname in ('ext', 'pure'):
